@@ -158,12 +158,22 @@ def run(tier, seed, replay):
         elif len(ck.samples) < 2:
             ck.sample({"final": kk if isinstance(kk, list) else kk["final"], "histories": len(lst), "digest": list(digs)[0]})
     # ---- stylesheets
-    sheets = corpus.css_snippets()
+    # (the same length spelled with and without an explicit sign, in neighbouring sheets: nothing may be remembered from one
+    #  transformation to the next)
+    sheets = corpus.css_snippets() + [".page { margin: +75rpx auto; top: -75rpx }", ".button { width: 75rpx; padding: 7.5rpx 75rpx }",
+                                      ".c { inset: +0rpx 0rpx; width: +7.5rpx }", ".d{width:75RPX}", ".e{width:75rpx}.e2{width:+75rpx}"]
     optsets = [{}, {"class_prefix": "p", "class_prefix_sign": "S"}, {"convert_host": True, "host_is": "h", "import_sign": "I", "rpx_ratio": 375}]
     ccases = [{"id": i, "src": s, "opts": o, "tok": False} for i, (s, o) in enumerate((s, o) for s in sheets for o in optsets)]
     outs = []
     for pr in range(nproc):
-        res = vlib.run_vh("css", ccases, jobs=2)
+        # every process meets the sheets in another order (process 0: as listed; jobs=1: one process, one thread)
+        order = list(range(len(ccases)))
+        if pr:
+            vlib.rng(seed, "c20-css-%d" % pr).shuffle(order)
+        res_s = vlib.run_vh("css", [ccases[i] for i in order], jobs=1)
+        res = [None] * len(ccases)
+        for i, r in zip(order, res_s):
+            res[i] = r
         outs.append([hashlib.sha1(json.dumps([r.get("normal"), r.get("low"), r.get("nmap"), r.get("lmap")]).encode()).hexdigest() for r in res])
         ck.evaluations += len(res)
     for i, c in enumerate(ccases):
